@@ -184,7 +184,16 @@ pub fn one_case(sys: usize, sh: &Shape, rng: &mut Rng, id: String) -> Case {
         }
     }
     // ---- follow-on message, then collect what the receiver saw
-    tx.send(SENTINEL, vec![], vec![]).unwrap();
+    // the follow-on message carries three attachments of its own: whatever happened to the message before it (also a
+    // failed, partially transmitted one) must not cost it any of them
+    let mut follow_atts = Vec::new();
+    let mut follow_keep = Vec::new();
+    for _ in 0..3 {
+        let (a, b) = platform::channel().unwrap();
+        follow_atts.push(OsIpcChannel::Sender(a));
+        follow_keep.push(b);
+    }
+    tx.send(SENTINEL, follow_atts, vec![]).unwrap();
     let mut got = Vec::new();
     loop {
         match grx.recv_timeout(std::time::Duration::from_secs(6)) {
@@ -267,7 +276,12 @@ pub fn one_case(sys: usize, sh: &Shape, rng: &mut Rng, id: String) -> Case {
     let mut saw_sentinel = false;
     for g in msgs {
         match g {
-            Got::Msg(d, _, _, _) if d == SENTINEL => saw_sentinel = true,
+            Got::Msg(d, c, s, _) if d == SENTINEL => {
+                saw_sentinel = true;
+                if c.len() != 3 || !s.is_empty() {
+                    case.fail(format!("the follow-on message arrived with {} channels / {} regions instead of its own 3 channels", c.len(), s.len()));
+                }
+            },
             Got::Msg(d, _, _, _) => case.fail(format!("a failed or phantom send was delivered as a message of {} bytes", d.len())),
             Got::Err(e, _) => {
                 if res.is_ok() {
@@ -341,6 +355,15 @@ pub fn run(args: &[String]) {
                         one_case(sys, &sh, &mut rng, format!("c13-{}-{}", sys, n)).emit();
                         n += 1;
                     }
+                }
+            }
+            // attachment capacity under ENOBUFS: a single-packet message that falls through to fragmentation needs one more
+            // descriptor (the dedicated socket); either everything arrives or the send is refused
+            for &cnt in &[62usize, 63, 64] {
+                for f in [vec![1u8], vec![0u8], vec![1, 1]] {
+                    let sh = Shape { len: 3000.min(max), nch: cnt, nshm: 0, faults: f };
+                    one_case(sys, &sh, &mut rng, format!("c13-{}-{}", sys, n)).emit();
+                    n += 1;
                 }
             }
             // a few patterns with a fatal error at a given attempt
